@@ -206,7 +206,7 @@ def run(ck, only=None):
         c.tag = f"K{70000 + i}"
     recs = recs + neutral
     # very large records (both sides of 1 MiB, 16 MiB): a size threshold in how assertions are emitted must not drop any of them
-    huge = gen_c.enumerate_records(3, atoms=["char", "int", "llong", "huge1m", "huge1m1", "huge16m"], rattrs=["plain", "packed"])
+    huge = gen_c.enumerate_records(3, atoms=["char", "int", "llong", "huge1m", "huge1m1", "huge16m", "huge256m", "huge512m"], rattrs=["plain", "packed"])
     huge = [c for c in huge if any(a.startswith("huge") for a in c.atoms) and sum(a.startswith("huge") for a in c.atoms) == 1 and (len(c.atoms) < 3 or ck.tier == "thorough" or c.atoms[1].startswith("huge"))]
     for i, c in enumerate(huge):
         c.tag = f"K{90000 + i}"
